@@ -98,23 +98,26 @@ def r20_2(ctx):
         g = bp.guard_text()
         if bp.outcome == "continue":
             kinds["skip"] = (g, appends, stores)
-        elif any("patches.pop(" in c for c in appends):
+        elif any(".pop(" in c for c in appends):
             kinds["replace"] = (g, appends, stores)
         else:
             kinds["keep"] = (g, appends, stores)
     ctx.check("merge loop has three cases (skip later duplicates / replace first occurrence / keep)", set(kinds) == {"skip", "replace", "keep"}, "skip, replace, keep", str(sorted(kinds)), w)
-    if "skip" in kinds:
-        g, ap, st = kinds["skip"]
-        ctx.check("later definitions of an already patched macro are skipped", "in succ_patched" in g and not ap, "guard `name in succ_patched`, nothing appended", f"{g[:80]} appends={ap}", w)
+    done = None
     if "replace" in kinds:
         g, ap, st = kinds["replace"]
-        ctx.check("first occurrence is replaced by the patch and remembered", len(ap) == 1 and "patches.pop(" in ap[0] and any(s.startswith("succ_patched[") for s in st) and "in patches.keys()" in g,
-                  "patched.append(patches.pop(name)); succ_patched[name] = ...", f"appends={[a[:60] for a in ap]} stores={[s[:40] for s in st]}", w)
+        done = next((s.split("[", 1)[0] for s in st if "[" in s), None)
+        pdict = ap[0].split(".pop(", 1)[0].rsplit("(", 1)[-1] if ap else None
+        ctx.check("first occurrence is replaced by the patch and remembered", len(ap) == 1 and ".pop(" in ap[0] and done is not None and pdict is not None and f"in {pdict}" in g,
+                  "merged.append(<patches>.pop(name)); <done>[name] = ...", f"appends={[a[:60] for a in ap]} stores={[s[:40] for s in st]}", w)
+    if "skip" in kinds:
+        g, ap, st = kinds["skip"]
+        ctx.check("later definitions of an already patched macro are skipped", done is not None and f"in {done})" in g and not ap, "guard `name in <done>` (the dictionary the replace case fills), nothing appended", f"{g[:80]} appends={ap}", w)
     if "keep" in kinds:
         g, ap, st = kinds["keep"]
         ctx.check("unpatched macros are kept unchanged", len(ap) == 1 and ap[0].endswith(".append(macro@iter)"), "patched.append(macro)", str([a[:60] for a in ap]), w)
-    tails = [e for p in ps for e in p.events if e.kind == "loop" and "patches.values()" in U(e.node[2])]
-    ok = bool(tails) and all(len(bp.events) == 1 and "patched.insert(0" in U(bp.events[0].node) for bp in tails[0].extra)
+    tails = [e for p in ps for e in p.events if e.kind == "loop" and ".values()" in U(e.node[2])]
+    ok = bool(tails) and all(len(bp.events) == 1 and ".insert(0" in U(bp.events[0].node) for bp in tails[0].extra)
     ctx.check("patches that replace nothing are added", ok, "for m in patches.values(): patched.insert(0, m)", "missing" if not ok else "ok", w)
     rets = [U(p.value) for p in ps if p.outcome == "return"]
     ctx.check("patch_macros returns the merged list", bool(rets) and all(r.startswith("@loopphi(list()") or r == "patched" or "patched" in r or r.startswith("@loopphi([]") for r in rets), "patched", str(rets)[:100], w)
